@@ -27,7 +27,8 @@ _LOCK = threading.Lock()
 _SEQ = itertools.count()
 REG: dict[str, dict] = {}      # function id -> description of the function
 _COUNTS: dict[str, int] = {}
-GATE = None                    # optional callable(fid, phase, kwargs_json) used by the controllable executor
+GATE = None                    # optional callable(fname, event, kwargs_json, logfn): controllable executor
+DELAY = None                   # optional callable(fname, kwargs_json): seeded delays for real pools
 
 
 def reset_log(log_file: str | None = None) -> None:
@@ -89,19 +90,28 @@ def invoke(fid: str, kwargs: dict[str, Any]) -> Any:
     """Body of every harness-built user function."""
     fd = REG[fid]
     kw_json = {p: to_json(kwargs[p]) for p in fd["params"]}
-    with _LOCK:
-        n = _COUNTS.get(fid, 0)
-        _COUNTS[fid] = n + 1
-    if GATE is not None:
-        GATE(fid, "enter", kw_json)
-    _log({"e": "call", "f": fd["name"], "fid": fid, "kwargs": kw_json, "pid": os.getpid(), "n": n})
+    base = {"f": fd["name"], "fid": fid, "kwargs": kw_json, "pid": os.getpid(), "n": -1}
+
+    def emit(e: str, **more) -> None:
+        def logfn() -> None:
+            if e == "call":            # the invocation index is taken at the (scheduled) call point
+                with _LOCK:
+                    base["n"] = _COUNTS.get(fid, 0)
+                    _COUNTS[fid] = base["n"] + 1
+            _log(dict(base, e=e, **more))
+        if GATE is not None:
+            GATE(fd["name"], e, kw_json, logfn)   # logged at the scheduled point, under the gate's lock
+        else:
+            logfn()
+
+    emit("call")
+    if DELAY is not None:
+        DELAY(fd["name"], kw_json)
     fail = fd.get("fail")
     if fail is not None:
         w = fail["when"]
-        if w == "*" or (isinstance(w, int) and w == n) or (isinstance(w, dict) and w == kw_json):
-            _log({"e": "fail", "f": fd["name"], "kwargs": kw_json, "cls": fail["cls"], "args": fail.get("args", [])})
-            if GATE is not None:
-                GATE(fid, "exit", kw_json)
+        if w == "*" or (isinstance(w, int) and w == base["n"]) or (isinstance(w, dict) and w == kw_json):
+            emit("fail", cls=fail["cls"], args=fail.get("args", []))
             raise EXC[fail["cls"]](*fail.get("args", []))
     args = tuple(canon(kwargs[p]) for p in fd["params"])
     ishape = fd.get("internal_shape") or []
@@ -113,8 +123,7 @@ def invoke(fid: str, kwargs: dict[str, Any]) -> Any:
 
     outs = fd["outputs"]
     res = value(outs[0]) if len(outs) == 1 else tuple(value(o) for o in outs)
-    if GATE is not None:
-        GATE(fid, "exit", kw_json)
+    emit("ret")
     return res
 
 
